@@ -41,12 +41,12 @@ class C01(Prop):
             'pre-divided eigenvalues x colocate, parameter dtype float32/float64, factor dtype None/float32/float64/bfloat16, inverse dtype '
             'float32/float64, 1-4 steps with SGD weight updates in between, clipping off (1e30) or active. Oracle: D recorded on a twin model '
             'without K-FAC, A and G read from state_dict() after the step, V_ref from a float64 dense solve of the system named in the '
-            'statement (Kronecker form for eigen), nu_ref from the clip formula; ||grad - nu_ref V_ref||_F <= 64 sqrt(n) eps kappa ||V_ref||_F, and '
+            'statement (Kronecker form for eigen), nu_ref from the clip formula; ||grad - nu_ref V_ref||_F <= 16 sqrt(n) eps kappa ||V_ref||_F, and '
             'the residual of the defining system is within the same bound. Non-trivial: tolerance <= 5e-2 and V_ref differs by more than '
             '10x tolerance from the float64 wrong answers {damping x 4, damping / 4, the other method\'s system}. '
             'distinct_nontrivial counts distinct cases with >= 1 non-trivial (layer, step).')
     assumptions = ['factor/inverse update intervals are 1 (stale second-order data is C05\'s subject)',
-                   'tolerance: c=64 sqrt(n) eps kappa with eps the coarsest of float32 (eigh/inv are float32), inv dtype, gradient dtype and, for the inverse method, the factor dtype (damping is added in it); '
+                   'tolerance: c=16 sqrt(n) eps kappa with eps the coarsest of float32 (eigh/inv are float32), inv dtype, gradient dtype and, for the inverse method, the factor dtype (damping is added in it); '
                    'kappa from the float64 system (product form for eigen, sum of the two factor condition numbers for inverse)']
     examples = {'quick': 300, 'thorough': 2000}
     shards = {'quick': 4, 'thorough': 16}
